@@ -306,7 +306,9 @@ theorem forced_domid (T : Tables) (tag : Str) (b : Bind) (st : TState) (raw idv 
   rw [hid]
 
 /-- FORCED VALUE on a tag the transform would otherwise leave alone (not input/option/textarea):
-    `value` becomes the bind's text even if a `value` attribute was given -/
+    `value` becomes the bind's text even if a `value` attribute was given.  This is the value
+    transform alone: on a `<label>` the for-transform, which runs later, removes `value` again
+    (`label_value_dropped` in `C19Applies.lean`), so a forced value never shows on a label. -/
 theorem forced_value (T : Tables) (tag : Str) (b : Bind) (st : TState)
     (hon : T.parseTrool ((Dict.get? st.attrs "auto_value".toList).getD .maybe) = .yes)
     (h1 : tag ≠ sInput) (h2 : tag ≠ sOption) (h3 : tag ≠ sTextarea) :
